@@ -618,7 +618,9 @@ def _gen_palette(rng):
             f = sh.fill
             if rng.random() < 0.5:
                 f.alpha = 1.0
-                key = f.rgb
+                # COLRv0 keeps alpha in the CPAL entry: one index cannot serve one colour at
+                # two opacities there (that input is a conflict and is rightly rejected)
+                key = (f.rgb, sh.opacity if fmt == "glyf_colr_0" else None)
                 if key not in used:
                     free = [i for i in range(8) if i not in used.values()]
                     if not free:
